@@ -68,9 +68,32 @@ class _BMat:
     tocsr = tocsc
 
 
+def _lin_T(lin):
+    """formal transpose of a linear combination of single matrix atoms: A -> A^T, (A^T)^T -> A (a transposed block is a different atom: nothing makes A symmetric)"""
+    t = {}
+    for k, v in lin.terms.items():
+        if len(k) != 1:
+            raise Unsupported("transpose of a product of blocks")
+        nm = k[0][:-2] if k[0].endswith("^T") else k[0] + "^T"
+        t[(nm,)] = v
+    return Lin(lin.kind, t)
+
+
 class _Block:
     def __init__(self, lin):
         self.lin = lin
+
+    @property
+    def T(self):
+        return _Block(_lin_T(self.lin))
+
+    def transpose(self):
+        return self.T
+
+    def tocsc(self):
+        return self
+
+    tocsr = tocsc
 
     def __matmul__(self, o):
         return _BVecPart(self.lin @ o.lin)
@@ -145,9 +168,62 @@ def ob_elim(canary=False):
 def _replay_elim():
     try:
         r = _native_solve("TRI3", "elastic", backend="scipy", dup=True)
-        return dict(confirmed=bool(r["constraint_err"] > 1e-10 or r["residual"] > 1e-9), **r)
+        if r["constraint_err"] > 1e-10 or r["residual"] > 1e-9:
+            return dict(confirmed=True, **r)
+        r2 = _native_nonsymmetric("TRI3", "scipy")
+        return dict(confirmed=bool(r2["constraint_err"] > 1e-10 or r2["residual"] > 1e-9 or r2["vs_dense"] > 1e-9), symmetric_problem=r, nonsymmetric_problem=r2)
     except Exception as e:
         return dict(confirmed=True, raised=repr(e)[:300])
+
+
+def _native_nonsymmetric(et, backend):
+    """convection-diffusion weak form (non-symmetric K) with non-zero prescribed values given as a function of position: elimination solve"""
+    import contextlib
+    import io
+    from EasyFEA import Models, Simulations, SolverType
+    from EasyFEA.FEM import Field, BiLinearForm, LinearForm
+    pre, connect = patches.star_patch(et, affine=None)
+    co = np.array([[float(x) for x in p] for p in pre])
+    mesh = patches.real_mesh(et, co.tolist(), connect)
+    dim = mesh.dim
+    beta = np.array([4.0, 1.0, -2.0])[:dim]
+    Kf = BiLinearForm(lambda u, v: u.grad.dot(v.grad) + (u.grad.dot(beta)) * v)
+    Ff = LinearForm(lambda v: 0.3 * v)
+    simu = Simulations.WeakForms(mesh, Models.WeakForms(Field(mesh.groupElem, 1), Kf, computeF=Ff))
+    simu.solver = backend if isinstance(backend, str) and backend == "lgmres" else SolverType[backend]
+    c = np.asarray(mesh.coord)
+    xmin, xmax = c[:, 0].min(), c[:, 0].max()
+    n0 = np.where(np.isclose(c[:, 0], xmin))[0][::-1]
+    n1 = np.where(np.isclose(c[:, 0], xmax))[0]
+    simu.add_dirichlet(n0, [lambda x, y, z: 1.0 + x + 2.0 * y], ["u"])
+    simu.add_dirichlet(n1, [0.25], ["u"])
+    with contextlib.redirect_stdout(io.StringIO()):
+        u = np.asarray(simu.Solve()).ravel()
+    Km, _, _, Fv = simu.Get_K_C_M_F()
+    Kd = np.asarray(Km.todense())
+    b = np.asarray(simu.Bc_vector_Neumann()).ravel() + np.asarray(Fv.todense()).ravel()
+    expected = {int(n): 1.0 + c[n, 0] + 2.0 * c[n, 1] for n in n0}
+    expected.update({int(n): 0.25 for n in n1})
+    known = np.array(sorted(expected))
+    free = np.setdiff1d(np.arange(len(c)), known)
+    xc = np.array([expected[k] for k in known])
+    ref = np.zeros(len(c))
+    ref[known] = xc
+    ref[free] = np.linalg.solve(Kd[np.ix_(free, free)], b[free] - Kd[np.ix_(free, known)] @ xc)
+    r = Kd @ u - b
+    return dict(constraint_err=float(max(abs(u[k] - v) for k, v in expected.items())), residual=float(np.abs(r[free]).max() / max(np.abs(b).max(), np.abs(Kd).max())),
+                vs_dense=float(np.abs(u - ref).max() / np.abs(ref).max()), asymmetry=float(np.abs(Kd - Kd.T).max()))
+
+
+def ob_native_nonsymmetric(et, backend):
+    r = _native_nonsymmetric(et, backend)
+    if r["asymmetry"] < 1e-3:
+        raise Unsupported("the test operator came out symmetric")
+    tol = 1e-9 if backend in ("scipy", "umfpack", "mumps", "petsc") else 1e-4
+    if r["constraint_err"] > 1e-10 or r["residual"] > tol or r["vs_dense"] > tol:
+        raise Refuted(f"non-symmetric system, elimination solve ({et}, {backend}): constraint error {r['constraint_err']:.2e}, free-row residual {r['residual']:.2e}, "
+                      f"distance to the dense reduced solve {r['vs_dense']:.2e}", cex=dict(elemType=et, backend=backend), signature=f"solve:nonsym:{et}:{backend}", replay=dict(confirmed=True, **r))
+    return Verdict(DISCHARGED, backend="native weak-form solve vs dense reduced solve", detail=str(r)[:300], sub=3)
 
 
 def ob_partition():
@@ -893,6 +969,10 @@ def build(tier, seed):
                                      ("QUAD8", "thermal", True, True)):
         obs.append(Ob(f"C04.solve.{et}.{physics}{'.dup' if dup else ''}{'.orphan' if orphan else ''}", ob_solve, (et, physics, dup, orphan), "X", (f"{SOL}::Solve_simu", f"{SP}::_Simu.Solve"),
                       bound="star patch, one BC set", clause="constrained dofs == (sum of) prescribed values; free rows of K u = F; finite with orphan nodes", timeout=300))
+    for et, backend in (("TRI3", "scipy"), ("QUAD4", "scipy"), ("TETRA4", "scipy"), ("TRI3", "gmres"), ("TRI3", "bicg")) + ((("TRI6", "scipy"), ("HEXA8", "scipy"), ("TRI3", "lgmres")) if tier == "thorough" else ()):
+        obs.append(Ob(f"C04.solve.nonsymmetric.{et}.{backend}", ob_native_nonsymmetric, (et, backend), "X", (f"{SOL}::__Solver_1", f"{SOL}::Solve_simu"),
+                      bound="star patch, convection-diffusion weak form, one BC set (function-valued and constant prescribed values)",
+                      clause="non-symmetric operator: constrained dofs hold their values, free rows of K u = F hold, solution == dense reduced solve (A_UK, not its transpose, moves the prescribed values to the right-hand side)", timeout=300))
     if tier == "thorough":
         from .common import LAGRANGE
         done = {("TRI3", "thermal"), ("QUAD4", "elastic"), ("TRI3", "elastic"), ("TETRA4", "elastic"), ("QUAD8", "thermal")}
